@@ -157,6 +157,9 @@ class ExprMixin(CallMixin):
         if name in module.assigns:
             vals = module.assigns[name]
             sk = f"{module.name}.{name}"
+            if len(vals) == 1 and isinstance(vals[0], ast.Call) and isinstance(vals[0].func, ast.Name) and vals[0].func.id == "object" \
+                    and not vals[0].args and not vals[0].keywords and "object" not in module.assigns and "object" not in module.imports:
+                return Sym("sentinel", sk)
             if sk in self.shared_objs:
                 return self.shared_objs[sk]
             try:
@@ -850,6 +853,13 @@ class ExprMixin(CallMixin):
                 if isinstance(a, Sym) and a.op in ("typeof", "visit", "exc", "fieldobj", "len"):
                     return False
                 return self.unknown_bool(f"isnone({_describe(a)})")
+        # a module-level sentinel (NAME = object()) is identical/equal only to itself; it reaches other values only as
+        # an explicit default, never as the content of a table or the result of a translation
+        for a, b in ((l, r), (r, l)):
+            if isinstance(a, Sym) and a.op == "sentinel":
+                if isinstance(b, Sym) and b.op == "sentinel":
+                    return a.args[0] == b.args[0]
+                return False
         if isinstance(l, Const) and isinstance(r, Const):
             if identity and not (isinstance(l.v, (bool, type(None))) or isinstance(r.v, (bool, type(None)))):
                 return l.v == r.v and type(l.v) is type(r.v)
